@@ -219,6 +219,8 @@ class Run:
             ]
             if sh.angmom > 3:
                 battery = battery[:2]
+            elif ((sh.angmom + 1) * (sh.angmom + 2)) // 2 * sh.coeffs.shape[1] * sh.exps.shape[0] <= 8:
+                battery.append(("electron_repulsion_integral", lambda b: api.fn["electron_repulsion_integral"](b[:1])))
             for name, f in battery:
                 with Ambient(None):
                     try:
